@@ -168,6 +168,7 @@ LAST_RECORD_OFFSET_OFFSET = NAME_SIZE + VERSION_SIZE + 4
 class FileJournal(Journal):
 
     def __init__(self, journalFile):
+        self.__journalPath = journalFile
         self.__journalFile = ResizableFile(journalFile, defaultContent=self.__getDefaultHeader())
         self.__journal = []
         self.__metaStorer = MetaStorer(journalFile + '.meta')
@@ -232,9 +233,26 @@ class FileJournal(Journal):
 
     def deleteEntriesTo(self, entryTo):
         journal = self.__journal[entryTo:]
-        self.clear()
-        for entry in journal:
-            self.add(*entry)
+        # Write the kept entries to a new file and move it over the old one, so that
+        # a crash at any moment leaves either the old or the new journal on disk
+        # (clearing and re-adding in place could lose the kept entries).
+        records = []
+        for command, idx, term in journal:
+            cmdData = struct.pack('<QQ', idx, term) + to_bytes(command)
+            cmdLenData = struct.pack('<I', len(cmdData))
+            records.append(cmdLenData + cmdData + cmdLenData)
+        currentOffset = FIRST_RECORD_OFFSET + sum(len(record) for record in records)
+        tmpPath = self.__journalPath + '.tmp'
+        with open(tmpPath, 'wb') as f:
+            f.write(self.__getDefaultHeader()[:LAST_RECORD_OFFSET_OFFSET])
+            f.write(struct.pack('<I', currentOffset))
+            for record in records:
+                f.write(record)
+        self.__journalFile._destroy()
+        shutil.move(tmpPath, self.__journalPath)
+        self.__journalFile = ResizableFile(self.__journalPath)
+        self.__journal = journal
+        self.__currentOffset = currentOffset
 
     def _destroy(self):
         self.__journalFile._destroy()
